@@ -24,7 +24,7 @@
    resCbFirstTime: a transaction that is still in the pool is not inserted a second time) and
    F12 (the same in v1 addNewTransaction); see /verif/fixes. *)
 From Coq Require Import List ZArith NArith Bool.
-From TM Require Import Common.Hex.
+From TM Require Import Common.Hex Generated.Consts.
 Import ListNotations.
 Open Scope Z_scope.
 
@@ -71,7 +71,7 @@ Definition cache_reset (c : list tx) : list tx := [].
 (* ------------------------------------------------------------------ application answers *)
 
 Record appres := {
-  v_code : Z;      (* ResponseCheckTx.Code; 0 = CodeTypeOK *)
+  v_code : Z;      (* ResponseCheckTx.Code; abci_code_type_ok = CodeTypeOK (generated) *)
   v_gas : Z;       (* GasWanted *)
   v_prio : Z;      (* Priority (v1) *)
   v_sender : N     (* Sender (v1); 0 stands for the empty string *)
@@ -91,7 +91,7 @@ Definition postcheck_ok (post : option Z) (v : appres) : bool :=
   end.
 
 Definition accepted (post : option Z) (v : appres) : bool :=
-  (v_code v =? 0) && postcheck_ok post v.
+  (v_code v =? abci_code_type_ok) && postcheck_ok post v.
 
 (* answers of one recheck round, by transaction; no answer counts as a rejection (the harness
    compares the set of requests as well) *)
@@ -260,7 +260,7 @@ Definition recheck0 (cfg : config) (rv : list (tx * appres)) (s : state0) : stat
 (* the per-transaction part of Update *)
 Definition update_one0 (cfg : config) (s : state0) (tc : tx * Z) : state0 :=
   let '(t, code) := tc in
-  let c := if code =? 0 then fst (cache_push (cfg_cache_size cfg) (s_cache s) t)
+  let c := if code =? abci_code_type_ok then fst (cache_push (cfg_cache_size cfg) (s_cache s) t)
            else if cfg_keep_invalid cfg then s_cache s
            else cache_remove (s_cache s) t in
   let s1 := set_cache0 s c in
@@ -510,7 +510,7 @@ Definition handle_recheck1 (cfg : config) (s : state1) (t : tx) (v : appres) : s
 
 Definition update_one1 (cfg : config) (s : state1) (tc : tx * Z) : state1 :=
   let '(t, code) := tc in
-  let c := if code =? 0 then fst (cache_push (cfg_cache_size cfg) (t_cache s) t)
+  let c := if code =? abci_code_type_ok then fst (cache_push (cfg_cache_size cfg) (t_cache s) t)
            else if cfg_keep_invalid cfg then t_cache s
            else cache_remove (t_cache s) t in
   fst (remove_by_key1 (set_cache1 s c) t).
